@@ -520,7 +520,7 @@ def run(rep: Report):
     tier = rep.tier
     opts = {"prove_timeout_ms": 10000 if tier == "quick" else 60000, "fork_timeout_ms": 3000, "seed": rep.seed}
     run_plan(rep, _plan(tier), SCENARIOS, opts)
-    rep.bounds = {"atoms": "0..2 (quick) / 0..4 (thorough), concrete", "particle_delta": "+1/-1", "old_cell": list(OLD_CELLS), "new_cell": "9 symbolic entries, det>0", "numbers": "exact reals; math.exp overflow modelled as OverflowError above ln(DBL_MAX)"}
+    rep.bounds = {"atoms": "0..2 (quick) / 0..4 (thorough), concrete", "particle_delta": "+1/-1", "old_cell": list(OLD_CELLS), "new_cell": "9 symbolic entries, det>0", "numbers": "exact reals; math.exp overflow modelled as OverflowError above ln(DBL_MAX)", "extreme magnitudes (floats, concrete)": "a, b in {0, +-30, +-800, +-2000} x u in {1e-300, 0.5, 1-1e-12} for the canonical, isobaric and isotension criteria, judged in log space"}
     rep.assumptions = ["T>0, u in [0,1), det(new cell)>0, exchange mass>0, accessible volume>0, grand-canonical prefactor within [1e-300,1e300]", "exp/log are uninterpreted with true axioms (positivity, monotonicity, exp(log x)=x, range facts, stated product lemmas)", "float arithmetic modelled over the reals; decisions compared outside a 1e-9 relative band around the threshold (rounding outside the claim)"]
     rep.stubs = ["EnergyCalc: calculator returning a symbolic energy", "OneU: generator returning one symbolic uniform number", "SymAtoms/SymCell: ase.Atoms/Cell on object arrays (volume = |det|)"]
     rep.outside = ["rounding of exp/log", "composite exchanges with |delta|>1 (no formula stated)", "the strain measure used by the isotension criteria (taken from the criteria itself)"]
